@@ -252,8 +252,11 @@ class C12(Prop):
                 io["rel_r"], io["rel_x"], [n - v for v in r[::-1]], x[::-1], "reversed block vector")
         if rel == "affine":
             a, b = float(Fraction(case["a"])), float(Fraction(case["b"]))
-            return same(io["rel_x"], [a * v + b for v in x], "positive affine map does not commute") or same_r(
-                io["rel_r"], io["rel_x"], r, x, "affine")
+            # blocks are compared after merging neighbours whose MAPPED values agree to 1e-6 (relative): a shift can make two
+            # block values that differ by 1e-17 (a huge case weight next to small ones) the same double
+            xa = [a * v + b for v in x]
+            return same(io["rel_x"], xa, "positive affine map does not commute") or same_r(
+                io["rel_r"], io["rel_x"], r, xa, "affine")
         if rel == "wscale":
             return same(io["rel_x"], x, "rescaling all weights changed the fit") or same_r(io["rel_r"], io["rel_x"], r, x, "wscale")
         if rel == "replicate":
